@@ -160,7 +160,8 @@ class Record:
 
     def __eq__(self, other):
         if not isinstance(other, Record):
-            return False
+            # not False: the other operand may know better (the selector's missing-field sentinel answers False to == and to !=)
+            return NotImplemented
 
         return self._pack(excluded_fields=IGNORE_FIELDS_FOR_COMPARISON) == other._pack(
             excluded_fields=IGNORE_FIELDS_FOR_COMPARISON
